@@ -100,6 +100,44 @@ func c12WriteFraming(w *core.W, j int) {
 		w.Violation("C12/write-framing", fmt.Sprintf("stream carries %d octets for a %d-octet message; first octets %x, want %x", len(got), len(want), head(got, 8), head(frame(want), 8)), map[string]any{"size": size})
 	}
 	w.NontrivialStr("write", fmt.Sprint(size))
+	// several messages of growing and shrinking sizes on the same Conn: the stream is exactly the
+	// concatenation of their frames (nothing of an earlier, longer message may follow a shorter one)
+	{
+		r := w.Rng(j, 7)
+		cl3, sv3 := netsim.StreamPair()
+		co3 := &dns.Conn{Conn: cl3}
+		var wantStream []byte
+		var sizes []int
+		for k := 0; k < 6; k++ {
+			sz := []int{size, 19 + r.IntN(60), 19 + r.IntN(3000), size / 2, 30, size}[k]
+			if sz < 19 {
+				sz = 19
+			}
+			mk := sizedMsg(sz, uint16(j*8+k), byte(k))
+			b, err := mk.Pack()
+			if err != nil {
+				continue
+			}
+			if k%2 == 0 {
+				err = co3.WriteMsg(mk)
+			} else {
+				_, err = co3.Write(b)
+			}
+			if err != nil {
+				w.Violation("C12/write-error", fmt.Sprintf("message %d (%d octets) on a reused Conn: %v", k, len(b), err), map[string]any{"size": size})
+				break
+			}
+			wantStream = append(wantStream, frame(b)...)
+			sizes = append(sizes, len(b))
+		}
+		cl3.Close()
+		got3, _ := io.ReadAll(sv3)
+		w.Eval(1)
+		w.Count("write_sequences", 1)
+		if !bytes.Equal(got3, wantStream) {
+			w.Violation("C12/write-framing-sequence", fmt.Sprintf("messages of %v octets written on one Conn put %d octets on the stream, want %d; first difference at %d", sizes, len(got3), len(wantStream), firstDiff(got3, wantStream)), map[string]any{"sizes": sizes})
+		}
+	}
 	// oversize writes are refused with nothing on the wire
 	for _, over := range []int{65536, 65537, 70000} {
 		cl2, sv2 := netsim.StreamPair()
@@ -527,6 +565,38 @@ func c12CrossTalk(w *core.W, j int) {
 	} else {
 		addr = srv.Listener.Addr().String()
 	}
+	// besides the clients, one sender keeps throwing datagrams with a valid header and an
+	// undecodable body at the server (each is answered FORMERR by the library itself): whatever the
+	// error path does with its receive buffer must not reach the other requests
+	rogueStop := make(chan struct{})
+	rogueDone := make(chan struct{})
+	go func() {
+		defer close(rogueDone)
+		if network != "udp" {
+			return
+		}
+		c, err := net.Dial("udp", addr)
+		if err != nil {
+			return
+		}
+		defer c.Close()
+		pkt := []byte{0xBA, 0xD0, 0x01, 0x00, 0, 1, 0, 0, 0, 0, 0, 0, 5, 'b', 'r', 'o'} // label runs past the end
+		buf := make([]byte, 512)
+		for i := 0; ; i++ {
+			select {
+			case <-rogueStop:
+				return
+			default:
+			}
+			pkt[1] = byte(i)
+			c.Write(pkt)
+			c.SetReadDeadline(time.Now().Add(20 * time.Millisecond))
+			c.Read(buf)
+			if i%8 == 7 {
+				time.Sleep(200 * time.Microsecond)
+			}
+		}
+	}()
 	var tsigReplyErrs atomic.Int64
 	var firstTsigErr atomic.Value
 	signedKeys := map[string]bool{}
@@ -635,6 +705,8 @@ func c12CrossTalk(w *core.W, j int) {
 	if !within(5*time.Minute, wg.Wait) {
 		w.Inconclusive("crosstalk-clients-did-not-finish")
 	}
+	close(rogueStop)
+	<-rogueDone
 	srv.Shutdown()
 	<-serveErr
 	// offline check
@@ -750,6 +822,6 @@ func init() {
 			"65536+ octet writes; stream/datagram ID handling with 0..5 stale/duplicate/foreign replies in seeded orders; cross-talk: 4..32 concurrent clients x 12 unique requests against real loopback UDP/TCP servers with scribbled recycled buffers and hook delays, offline exactly-once/no-mixing check; a third of the clients sign with TSIG (handler must see TsigStatus nil, signed replies must verify); after every split plan the following message on the stream is read too, incl. segments that carry the end of one frame and the start of the next; race detector on; " +
 			"non-trivial = distinct (size, split plan) / scripted reply order / cross-talk round",
 		Assumptions: []string{"loss of UDP datagrams is legal: an unanswered request stays open, never 'failed'", "a watchdog of 20 s decides 'hang' for in-memory transports"},
-		MinObserved: []string{"split_plans", "fault_offsets", "server_split_plans", "datagram_scripts", "exchanges_udp", "exchanges_tcp", "hook_poolPut", "oversize_response_writes", "following_messages_read", "signed_requests_handled_udp", "signed_requests_handled_tcp"},
+		MinObserved: []string{"split_plans", "fault_offsets", "server_split_plans", "datagram_scripts", "exchanges_udp", "exchanges_tcp", "hook_poolPut", "oversize_response_writes", "following_messages_read", "write_sequences", "signed_requests_handled_udp", "signed_requests_handled_tcp"},
 	})
 }
